@@ -2,6 +2,7 @@
 Everything random about a run is drawn here from random.Random(seed-string) or, for online
 scheduling decisions, from random.Random(spec['sched_seed']) inside the child."""
 import random
+import re
 
 from . import ops as O
 
@@ -22,9 +23,27 @@ def hashseed_for(seed):
     return HASHSEEDS[seed % len(HASHSEEDS)]
 
 
+_CLS = re.compile(r'_(c?\d+)$')
+
+
+def family_classes(corpus):
+    """Families grouped into classes (errstate_NN -> errstate, cat_cNN -> cat, ...): a run first picks a
+    class uniformly, then a member, so that sixty error-state families do not crowd out the planner ones."""
+    cl = {}
+    for f in sorted(corpus['families']):
+        cl.setdefault(_CLS.sub('', f), []).append(f)
+    return cl
+
+
 def _subcorpus(rng, corpus):
-    fams = sorted(corpus['families'])
-    chosen = rng.sample(fams, _weighted(rng, [(1, 5), (2, 4), (3, 1)]))
+    classes = family_classes(corpus)
+    names = sorted(classes)
+    chosen = []
+    for _ in range(_weighted(rng, [(1, 5), (2, 4), (3, 1)])):
+        c = names[rng.randrange(len(names))]
+        f = classes[c][rng.randrange(len(classes[c]))]
+        if f not in chosen:
+            chosen.append(f)
     sub = []
     for f in chosen:
         lst = corpus['families'][f]
@@ -33,6 +52,24 @@ def _subcorpus(rng, corpus):
     for _ in range(rng.randint(0, 3)):
         sub.append(pool[rng.randrange(len(pool))])
     return chosen, sub
+
+
+_STRATA = {}
+
+
+def strata(corpus, ref):
+    """Pool ops grouped by (kind, dialect, accepted/rejected): an S2 'stratum sweep' draws a whole history
+    from one group, so that state keyed on less than the full input (a memo on the parser state, on a
+    dialect, on a catalog) is hit by two different inputs that share the key."""
+    key = id(corpus)
+    if key not in _STRATA:
+        st = {}
+        for op in corpus['pool']:
+            r = ref.get(O.op_key(op))
+            cls = 'err' if (r and r['obs'].startswith('err')) else 'ok'
+            st.setdefault('%s/%s/%s/%s' % (op['k'], op.get('d', ''), op.get('rd', op.get('cat', '')) if op['k'] != 'parse' else '', cls), []).append(op)
+        _STRATA[key] = {k: v for k, v in st.items() if len(v) >= 8}
+    return _STRATA[key]
 
 
 def _strategy(rng, est):
@@ -94,6 +131,13 @@ def gen_s2(seed, corpus, ref):
     for _ in range(rng.randint(2, 10)):
         sub.append(pool[rng.randrange(len(pool))])
     n = rng.randint(10, 40)
+    if rng.random() < 0.35:
+        st = strata(corpus, ref)
+        names = sorted(st)
+        name = names[rng.randrange(len(names))]
+        fams = ['stratum:' + name]
+        lst = st[name]
+        sub = [lst[rng.randrange(len(lst))] for _ in range(rng.randint(6, 30))]
     ops = [sub[rng.randrange(len(sub))] for _ in range(n)]
     spec = {
         'cmd': 'sim', 'property': 'C20', 'sub': 'S2', 'seed': seed, 'hashseed': hashseed_for(seed),
